@@ -97,7 +97,7 @@ def run_history_job(job):
             if sc.shape.get('history_truncated'):
                 res['paths']['template_truncated_at_%d_histories' % cap] += 1
         else:
-            cap = opts.get('history_cap_full', 1500 if tier == 'quick' else 12000)
+            cap = opts.get('history_cap_full', 1500 if tier == 'quick' else 2000)
             trails = list(ST.run_history(sc, spec, ireq, max_paths=cap, truncate=True))
             if sc.shape.get('history_truncated'):
                 res['paths']['template_truncated_at_%d_histories' % cap] += 1
